@@ -3370,9 +3370,23 @@ impl GraphEngine {
         Ok(id)
     }
 
+    /// Striped lock serialising read-modify-write cycles on one adjacency list key.
+    ///
+    /// The list is a stored value that is read, changed and written back; without
+    /// mutual exclusion two threads touching the same node lose each other's update.
+    fn adjacency_lock(&self, key: &str) -> parking_lot::RwLockWriteGuard<'_, ()> {
+        use std::hash::{Hash, Hasher};
+        let mut hasher = std::collections::hash_map::DefaultHasher::new();
+        key.hash(&mut hasher);
+        #[allow(clippy::cast_possible_truncation)]
+        let idx = (hasher.finish() as usize) % self.index_locks.len();
+        self.index_locks[idx].write()
+    }
+
     fn add_edge_to_list(&self, key: String, edge_id: u64) -> Result<()> {
         #[cfg(neumann_verif)]
         tensor_store::verif_hooks::yield_point("graph.adj.pre");
+        let _guard = self.adjacency_lock(&key);
         let mut tensor = self.store.get(&key).unwrap_or_else(|_| TensorData::new());
         #[cfg(neumann_verif)]
         tensor_store::verif_hooks::yield_point("graph.adj.rmw");
@@ -6444,6 +6458,7 @@ impl GraphEngine {
     fn remove_edge_from_list(&self, key: &str, edge_id: u64) -> Result<()> {
         #[cfg(neumann_verif)]
         tensor_store::verif_hooks::yield_point("graph.adj.pre");
+        let _guard = self.adjacency_lock(key);
         if let Ok(mut tensor) = self.store.get(key) {
             #[cfg(neumann_verif)]
             tensor_store::verif_hooks::yield_point("graph.adj.rmw");
